@@ -13,6 +13,7 @@ from export_ir import funcs_of
 from pairs import default_argdom, image_of, oracle_at, run_pair_batch
 
 T = "memref<16xi32>"
+VIEWS_MODE = os.environ.get("VERIF_C13_VIEWS", "any")
 
 
 class Gen:
@@ -23,6 +24,7 @@ class Gen:
         self.n = 0
         self.bufs = ["%a", "%b", "%c"]
         self.views = views
+        self.root = {}          # view -> the buffer it (transitively) aliases
         self.nested_producer = nested_producer
         self.ifs = ifs
         self.loop_pool = None   # known findings (known/C13): dependencies across control-flow boundaries; loop bodies use their own buffers
@@ -38,6 +40,8 @@ class Gen:
     def op(self, ind, loopdepth, depth=1):
         self.tag += 1
         r = self.rng.random()
+        if self.views and loopdepth == 0 and depth == 1 and self.rng.random() < 0.25:
+            r = 0.9        # more views in the programs that have them
         if r < 0.33:
             x, y = self.pick(2)
             self.emit(ind, f'"memref.copy"({x}, {y}) {{tag = {self.tag} : i32}} : ({T}, {T}) -> ()')
@@ -55,6 +59,20 @@ class Gen:
             self.emit(ind, f'"test.op"({x}) {{tag = {self.tag} : i32}} : ({T}) -> ()')
         elif r < 0.93 and loopdepth == 0 and depth == 1:
             self.n += 1
+            if self.views and self.rng.random() < 0.8:
+                # a view of a buffer (full-size subview or cast): from here on the buffer is reached through either name
+                (x,) = self.pick(1)
+                nb = f"%v{self.n}"
+                if self.rng.random() < 0.6:
+                    self.emit(ind, f"{nb} = memref.subview {x}[0] [16] [1] : {T} to {T}")
+                else:
+                    self.emit(ind, f'{nb} = "memref.cast"({x}) : ({T}) -> {T}')
+                self.root[nb] = self.root.get(x, x)
+                if self.views == "replace":
+                    self.bufs = [nb if b == x else b for b in self.bufs]     # ... through the new name only
+                else:
+                    self.bufs.append(nb)
+                return
             nb = f"%l{self.n}"
             self.emit(ind, f"{nb} = memref.alloc() : {T}")
             self.bufs.append(nb)
@@ -93,9 +111,10 @@ class Gen:
             for _ in range(self.rng.randint(2, 8)):
                 self.op(2, 0, 1)
             # local buffers are freed right after their last use (as snax-allocate places deallocs), or at the end, or never
-            for b in self.bufs[3:]:
+            for b in [b for b in self.bufs[3:] if b.startswith("%l")]:
                 r = self.rng.random()
-                uses = [i for i, l in enumerate(self.lines) if any((b + t) in l for t in (",", ")", " "))]
+                names = [b] + [v for v, r0 in self.root.items() if r0 == b]
+                uses = [i for i, l in enumerate(self.lines) if any((nm + t) in l for nm in names for t in (",", ")", " ", "["))]
                 if r < 0.4 and uses:
                     at = uses[-1]
                     if "linalg.generic" in self.lines[at]:
@@ -133,7 +152,7 @@ def run(pid: str, tier: str, seed: int, selftest=False, replay=None) -> int:
         sources.append((f"witness:{pid}/{os.path.basename(p)}", "builtin.module {\n" + open(p).read() + "\n}\n", None))
     for k in range(n):
         rng = random.Random(seed * 32452843 + k)
-        text, body = Gen(rng).program()
+        text, body = Gen(rng, views=VIEWS_MODE if k % 3 == 0 else False).program()
         used = lambda a: any((a + t) in body for t in (" ", ",", ")", "\n"))
         argdom = [[900001], [900002], [900003], [0, 1, 2, 3] if used("%n") else [1], [0, 1] if used("%p") else [0]]
         sources.append((f"gen:{seed}:{k}", text, argdom))
